@@ -4,7 +4,7 @@
    wherever it is inserted in a history. *)
 From Coq Require Import ZArith NArith List Bool Lia Permutation.
 From Tinode Require Import Base.Util Pure.Acs Sys.Topic Sys.TopicTac Sys.TopicFrame Sys.TopicNum Sys.TopicNumThm
-  Sys.TopicCoh Sys.TopicCohProofs Sys.TopicCohStep Sys.TopicCohRun Sys.TopicCohQuery Sys.TopicCohKeys.
+  Sys.TopicCohC08 Sys.TopicCohC08Proofs Sys.TopicCohC08Step Sys.TopicCohC08Run Sys.TopicCohC08Query Sys.TopicCohC08Keys.
 Import ListNotations.
 Open Scope Z_scope.
 
